@@ -6,11 +6,11 @@ import json, os, re
 V = os.path.dirname(os.path.dirname(os.path.abspath(__file__)))
 RULES = [
     (r"^Run$", "C01 C02 C04 C05 C18 C20"),
-    (r"^runExecWithRetries$", "C02 C07 C11 C20"),
-    (r"^runBatchSequential$", "C06 C07 C08 C09 C11"),
+    (r"^runExecWithRetries$", "C02 C07 C11 C17 C20"),
+    (r"^runBatchSequential$", "C06 C07 C08 C09 C11 C17"),
     (r"^markUnprocessed$", "C09 C11"),
-    (r"^runBatch$", "C06 C07 C08 C09 C11 C18 C19"),
-    (r"^runBatchConcurrent$", "C02 C06 C07 C08 C09 C11"),
+    (r"^runBatch$", "C06 C07 C08 C09 C11 C17 C18 C19"),
+    (r"^runBatchConcurrent$", "C02 C06 C07 C08 C09 C11 C17"),
     (r"^Flow_Exec$", "C03 C04 C05 C10 C18"),
     (r"^Flow_Run$", "C01 C02 C03 C04 C05 C10 C18"),
     (r"^Flow_Prep$", "C10"), (r"^Flow_Post$", "C10 C18"), (r"^Flow_Connect$", "C03 C18"), (r"^NewFlow$", "C03 C10"),
